@@ -223,8 +223,17 @@ func E2ETurn(args []string) {
 			ts.mu.Lock()
 			allocs := len(ts.users)
 			ts.mu.Unlock()
+			// how many connections the host's transfer ran on (hook xfer.begin)
+			hostConns := 0
+			for _, e := range host.events() {
+				if e.Pt == "xfer.begin" {
+					hostConns = int(e.A)
+				}
+			}
+			requested := 1
+			fmt.Sscanf(conns, "%d", &requested)
 			replay := map[string]any{"session": i, "mode": mode, "connections": conns, "join_exit": rc, "join_returned": done, "seconds": dur.Seconds(), "tree_equal": equal,
-				"turn_users_authenticated": allocs, "join_tail": tailText(join.out.String(), 400), "host_tail": tailText(host.out.String(), 400)}
+				"turn_users_authenticated": allocs, "host_connections": hostConns, "join_tail": tailText(join.out.String(), 400), "host_tail": tailText(host.out.String(), 400)}
 			label := "turn " + mode + " conns=" + conns
 			switch {
 			case !done:
@@ -236,7 +245,9 @@ func E2ETurn(args []string) {
 			case !equal:
 				outcomes[label+": tree differs"]++
 				res.AddViolation(map[string]any{"prop": "C01", "kind": "both_succeed_tree_differs", "tree": "session-over-relay"}, replay)
-			case dur > 9*time.Second:
+			case dur > 9*time.Second && hostConns < requested:
+				// (both together: the session waited out a 10 s timeout AND ended up with fewer connections than asked for;
+				// a slow machine alone does not lose connections)
 				outcomes[label+": stall"]++
 				res.AddViolation(map[string]any{"prop": "C09", "kind": "session_stalls_on_connections_the_peer_never_gets", "mode": mode, "connections": conns}, replay)
 			case allocs < 2:
